@@ -22,7 +22,7 @@ ASSUMPTIONS = ["headers that contain the exact token as a whitespace-delimited w
                "Flask test client, not a socket server"]
 REQUIRED = {"refused_after_authorised": 500, "requests_refused": 3000, "fingerprint_comparisons": 3000, "control_served": 10, "rules_enumerated": 15}
 BUDGET_S = {"quick": 110, "thorough": 900}
-TOKEN = "Tok3n-abc.DEF"
+TOKEN = "Tok3n-ab+c.DEF|alt"        # (characters that mean something to pattern languages are ordinary characters of a secret)
 OTHER_TOKEN = "0ther-Server.t0ken"
 PUBLIC = {"/", "/healthy", "/metrics", "/full-metrics"}
 STATES = ["empty", "live", "locked", "external"]
@@ -41,6 +41,10 @@ def credentials():
         ("other-servers-token", "Bearer " + OTHER_TOKEN),
         # the token with characters outside ASCII added (a comparison that drops or replaces what it cannot encode would accept them)
         ("nonascii-suffix", "Bearer " + t + "\u00e9"), ("nonascii-inside", "Bearer " + t[:3] + "\u00fc" + t[3:]), ("nonascii-prefix", "Bearer \u00df" + t), ("nonascii-only", "Bearer \u00fc\u00e9"),
+        # near misses at the characters of the secret that pattern languages (regular expressions, globs, SQL LIKE) give a meaning to
+        ("pattern-dot", "Bearer " + t.replace(".", "X")), ("pattern-plus", "Bearer " + t.replace("b+c", "bbc")), ("pattern-plus-literal-gone", "Bearer " + t.replace("b+c", "bc")),
+        ("pattern-left-alternative", "Bearer " + t.split("|")[0]), ("pattern-right-alternative", "Bearer " + t.split("|")[1]), ("pattern-right-alternative-bare", t.split("|")[1]),
+        ("pattern-percent", "Bearer %"), ("pattern-star", "Bearer *"), ("pattern-dotstar", "Bearer .*"),
         # contain the exact token as a word: recorded only
         ("EXEMPT-basic-token", "Basic " + t), ("EXEMPT-double-space", "Bearer  " + t), ("EXEMPT-extra-word", "Bearer " + t + " extra"),
         ("EXEMPT-lower-scheme", "bearer " + t),
